@@ -256,3 +256,19 @@ def run(repo: Repo, rep: Report, tier: str) -> None:
     # ---------------- R9 ---------------------------------------------------------------
     _borrow20(repo, rep, "C04", "C04-R2", "C20-R9", "a named read declared after the write of a folded cell is wired to the combinator that now holds the cell: the feedback rewrite records "
               "the surviving node for later reads on every path", select=lambda o: "output_node_id" in o.construct or "handle_read" in o.detail, floor=1)
+
+    # ---------------- R10 --------------------------------------------------------------
+    rep.rule("C20-R10", "the source line in a label is the line of the user's file: the text handed to the parser keeps its leading lines (no `.strip()` / `.lstrip()` on the way), "
+             "otherwise every label and diagnostic of a file that starts with blank lines is off by that many lines")
+    n10 = 0
+    for cf10 in _cfs6(repo):
+        cc10 = canon(cf10)
+        for c in calls_in(cf10.node, "parse"):
+            if not c.args:
+                continue
+            n10 += 1
+            t10 = cc10.text(c.args[0])
+            bad10 = [m for m in (".strip()", ".lstrip(") if m in t10]
+            rep.check(not bad10, "C20-R10", f"{cf10.short}: parser receives the source with its leading lines", t10[:60] if not bad10 else
+                      f"`{t10[:60]}` removes leading blank lines: `\\\\n\\\\nSignal a = 1;` is labelled line 1 instead of line 3", cf10.loc(c))
+    rep.floor("C20-R10", "parse calls in the compile functions", n10, 2)
